@@ -774,4 +774,27 @@ theorem demo_envEquiv : EnvEquiv cexWorld demoSchema plainSchema := by
 
 end Demo
 
+/-! ## F59 — the world that decides is the one at the time of the LOAD
+
+  Every theorem above speaks of one world `W`: the environment does not change while a configuration lives.  C14's sentence is
+  about the variable "when the configuration is built".  The model follows the code, which looks at the process environment again
+  at every load (`decodeEntry` consults `envValue W m` with the world of the load), so with two worlds the property's reading fails
+  on the model exactly as on /repo (recorded finding F59, replays `notes/replays-found/F59-*.json`): -/
+
+/-- built while the variable is set, loaded after it was removed: the document's entry is **assigned** (the field the variable
+    shielded at construction is overridden); built while it is unset, loaded after it was set: the entry is **skipped** (a field
+    without a binding does not receive the document's value) -/
+theorem env_consulted_at_load :
+    entryEffect C12b.Demo.envW C12b.Demo.envSchema (.str ['b']) (.bool false) = .skip ∧
+    entryEffect cexWorld C12b.Demo.envSchema (.str ['b']) (.bool false) = .assign "b" := by decide
+
+/-- what does hold for two worlds (the `_partial` form of "documents never override"): a load skips the key exactly when the
+    variable is set in the world of THAT load, whatever the world of construction was -/
+theorem env_beats_load_partial (Wbuild Wload : World) (fuel : Nat) (s : Schema) (path : String) (c : Cfg) (k : Str) (value : Val)
+    (rest : List (Val × Val)) (doValidate : Bool) (n : Nat) (fs : FieldSpec) (m : LeafMeta)
+    (hf : s.get (String.ofList k) = some (.leaf fs m)) (x : Str) (henv : envValue Wload m = some x) :
+    loadTree Wload fuel s path c ((.str k, value) :: rest) doValidate n = loadTree Wload fuel s path c rest doValidate n :=
+  let _ := Wbuild
+  C14.env_beats_load Wload fuel s path c k value rest doValidate n fs m hf x henv
+
 end Cinco.C14b
